@@ -191,6 +191,8 @@ def run(tier):
     watchdog(prog, res)
     frame_walk_accounts_header(prog, res)
     capacity_witnesses(res)
+    from .C06 import wildcopy_margins          # shared clause: the literals buffer keeps the wild-copy margin
+    wildcopy_margins(prog, res)
     return res.finish(
         explanation="Frozen inventory of every check-before-use guard of the decoder, entropy-header readers and "
                     "legacy (v0.5-0.7) decoders: each guard (error code, relational operator, global-name anchors of "
